@@ -103,6 +103,15 @@ def build_state(spec):
     else:
         raise ValueError(kind)
     cores = right_orthonormalise(cores)
+    pad = spec.get("pad")
+    if pad:
+        # many-qubit registers: computational-basis sites (rank-1 bonds) in front of and behind the entangled block.
+        # The dense oracle only ever sees the block; a padding site measured yields its basis bit with probability one.
+        def basis(bit):
+            c = np.zeros((1, 2, 1, 1), dtype=complex)
+            c[0, bit, 0, 0] = 1.0
+            return c
+        cores = [basis(b) for b in pad["left"]] + cores + [basis(b) for b in pad["right"]]
     if spec.get("realify"):
         # minimal-dtype storage: cores without an imaginary part are kept as real arrays (a train may legitimately
         # mix real and complex cores)
@@ -192,6 +201,7 @@ class Run(object):
         self.step_no = 0
         self.state_keys = set()
         self.modes = set()
+        self.pad = None
 
     def _fail(self, clause, detail):
         raise Violation("C20", "oracle(sampling,%s)" % clause, clause, detail, step=self.step_no)
@@ -200,6 +210,11 @@ class Run(object):
         self.step_no += 1
         self.log.add("op", self.step_no, rec["op"], {k: v for k, v in rec.items() if k not in ("op",)})
         if rec["op"] == "state":
+            self.pad = rec["spec"].get("pad")
+            if self.pad:
+                sp = dict(rec["spec"]); sp.pop("pad")
+                self.block_cores = build_state(sp)
+                self.block_n = len(self.block_cores)
             self.cores = build_state(rec["spec"])
             try:
                 self.state = self.ttm.TT([c.copy() for c in self.cores])
@@ -218,6 +233,10 @@ class Run(object):
                     self.state = t
                     self.cores = [np.array(c) for c in t.cores]
                     self.probes["state_prepared_by_sut"] += 1
+            if self.pad:
+                self.snap = None
+                self.log.add("snap-padded", M.meta(self.state))
+                return "ok"
             self.snap = M.Snapshot(self.state)
             self.log.add("snap", self.snap.meta, arr_digest(self.snap.dense))
             return "ok"
@@ -227,7 +246,76 @@ class Run(object):
             return self.op_gate(rec)
         return self.op_sample(rec)
 
+    def _sample_padded(self, rec, measure, ms, N, mode):
+        """Registers with up to ~70 qubits: left padding | entangled block | right padding (all padding sites in basis
+        states).  Prediction: padding sites give their bit (p0 is exactly 1 or 0; variates are kept away from 0 and 1),
+        the block is predicted densely from the variates of its own columns."""
+        L, B = len(self.pad["left"]), self.block_n
+        top = 1.0 - 2.0 ** -53
+        g = np_gen(rec.get("plan_seed", 0))
+        k = len(ms)
+        U = np.clip(g.uniform(size=(N, k)), 1e-6, 1 - 1e-6) if mode != "const" else np.full((N, k), min(max(float(rec.get("c", 0.5)), 1e-6), 1 - 1e-6))
+        blk_sites = [x - L for x in ms if L <= x < L + B]
+        want = np.zeros((N, k))
+        cols_blk = [j for j, x in enumerate(ms) if L <= x < L + B]
+        if blk_sites:
+            marg = oracle_marginal(self.block_cores, blk_sites)
+            wb, mind = predict(marg, U[:, cols_blk])
+            if wb is None or mind < GUARD:
+                self.probes["variate_on_boundary_skipped"] += 1
+                return "skip"
+            want[:, cols_blk] = wb
+        for j, x in enumerate(ms):
+            if x < L:
+                want[:, j] = self.pad["left"][x]
+            elif x >= L + B:
+                want[:, j] = self.pad["right"][x - L - B]
+        seen = {"ok": True}
+
+        def plan(shape):
+            if tuple(shape) == (N, k):
+                return U.copy()
+            seen["ok"] = False
+            return np.clip(g.uniform(size=shape), 1e-6, 1 - 1e-6)
+        self.seams.rng_plan = plan
+        self.seams.rng_requests = []
+        self.seams.begin_op(())
+        try:
+            out, exc = self.qc.sampling(self.state, list(measure), N), None
+        except Exception as e:  # noqa
+            out, exc = None, e
+        finally:
+            self.seams.end_op()
+            self.seams.rng_plan = None
+        self.ops_done += 1
+        self.modes.add((mode, k, self.state.order))
+        if exc is not None:
+            self._fail("raised", {"exception": repr(exc)[:300], "n": self.state.order, "measured": k})
+        try:
+            samples, freqs = out
+            samples = np.asarray(samples)
+            freqs = np.asarray(freqs, dtype=float)
+        except Exception as e:
+            self._fail("shape", {"problem": repr(e)[:200]})
+        if samples.ndim != 2 or samples.shape[1] != k or samples.shape[0] != len(freqs):
+            self._fail("shape", {"samples": samples.shape, "k": k})
+        rows = [tuple(int(b) for b in r_) for r_ in samples]
+        if len(set(rows)) != len(rows) or abs(float(freqs.sum()) - 1.0) > 1e-9:
+            self._fail("frequencies-sum", {"sum": float(freqs.sum()), "rows": len(rows), "distinct": len(set(rows))})
+        if seen["ok"] and self.seams.rng_requests and measure == ms:
+            ur, cnt = np.unique(want, axis=0, return_counts=True)
+            pred = dict(zip([tuple(int(b) for b in r_) for r_ in ur], (cnt / N).tolist()))
+            got = dict(zip(rows, freqs.tolist()))
+            if pred.keys() != got.keys() or any(abs(pred[r_] - got[r_]) > 1e-12 for r_ in pred):
+                self._fail("inverse-cdf", {"mode": mode, "n": self.state.order, "measured_sites": k, "N": N,
+                                           "predicted_rows": len(pred), "returned_rows": len(got)})
+            self.probes["exact_prediction_checked:padded"] += 1
+        self.state_keys.add((self.state.order, k, mode, "padded"))
+        return "ok"
+
     def op_gate(self, rec):
+        if self.pad is not None:
+            return "skip"
         """The caller applies a single-qubit unitary to one site of the SAME state object by assigning a new core (as
         ode.tjm does with its jump operators).  Norm and right-orthonormality are preserved, so the state stays in the
         property's domain; every later sampler call must see the new state (no result may be remembered per object)."""
@@ -277,6 +365,8 @@ class Run(object):
         k = len(ms)
         N = int(rec["N"])
         mode = rec["mode"]
+        if self.pad is not None:
+            return self._sample_padded(rec, measure, ms, N, mode)
         marg = oracle_marginal(self.cores, ms)
         g = np_gen(rec.get("plan_seed", 0))
         top = 1.0 - 2.0 ** -53
@@ -415,6 +505,14 @@ def generate_and_run(seed, keep_events=False):
         ranks = [1] + [rnd.randint(1, cfg["max_rank"]) for _ in range(n - 1)] + [1]
         rec = {"op": "state", "spec": {"n": n, "kind": kind, "ranks": ranks, "sub_seed": rnd.getrandbits(48),
                                        "via_sut": rnd.random() < 0.4, "realify": rnd.random() < 0.4}}
+        padded = rnd.random() < 0.08
+        if padded:
+            tot = rnd.choice((12, 30, 64, 66, 70))
+            nl = rnd.randint(0, max(0, tot - n))
+            rec["spec"]["pad"] = {"left": [rnd.randint(0, 1) for _ in range(nl)],
+                                  "right": [rnd.randint(0, 1) for _ in range(max(0, tot - n - nl))]}
+            rec["spec"]["via_sut"] = False
+        state_rec = rec
         records.append(rec)
         run.step(rec)
         prev_measure = None
@@ -424,9 +522,13 @@ def generate_and_run(seed, keep_events=False):
                        "gate": rnd.choice(("H", "H", "X", "Z", "HZ"))}
                 records.append(rec)
                 run.step(rec)
+        n_all = n + (len(state_rec["spec"]["pad"]["left"]) + len(state_rec["spec"]["pad"]["right"]) if padded else 0)
         for _ in range(cfg["length"]):
             k = rnd.randint(1, n)
             measure = sorted(rnd.sample(range(n), k))
+            if padded:
+                k = rnd.choice((rnd.randint(1, n_all), n_all, n_all))
+                measure = sorted(rnd.sample(range(n_all), k))
             if rnd.random() < 0.2:
                 rnd.shuffle(measure)
             if prev_measure is not None and rnd.random() < 0.5:
